@@ -15,10 +15,10 @@ RULE = ("explicit-state BFS over all call histories (add/union/find/connected/co
         "component_mapping/roots/len/in; push/get/pop/front/empty) up to the depth bound, over int, tuple, "
         "string and mixed element alphabets, from the empty and from a pre-filled structure; a case is one "
         "distinct (real-object canonical dump, model) state; non-trivial = at least one element/item present")
-ASSUMPTIONS = ["elements restricted to the 3-4 element alphabets listed in the tasks; priorities to {-inf,-1,0,1,inf}",
+ASSUMPTIONS = ["elements restricted to the 3-4 element alphabets listed in the tasks; priorities to {-inf,-1,0,1,inf} and, in a third queue family, to values close to each other relative to their magnitude {1e10, 1e10+1, -1e10, -1e10-1, 1, 1+2^-40, 1e-300, 2e-300}",
                "depth bound as given in coverage.bounds; all histories below it are explored (no sampling)"]
-BOUNDS = {"quick": "union-find depth 4 (ints: 5); priority queue depth 5 with two item names, depth 7 with one item name, priorities {0,1,-1,inf,-inf}",
-          "thorough": "union-find depth 6 (ints: 7); priority queue depth 7 with two item names, depth 9 with one"}
+BOUNDS = {"quick": "union-find depth 4 (ints: 5); priority queue depth 5 with two item names, depth 7 with one item name, priorities {0,1,-1,inf,-inf}; depth 4 on the close-priority alphabet",
+          "thorough": "union-find depth 6 (ints: 7); priority queue depth 7 with two item names, depth 9 with one; depth 6 on the close-priority alphabet"}
 
 ALPHABETS = {
     "ints": [0, 1, 2, 3],
@@ -46,6 +46,11 @@ def tasks(tier):
     for items, d in ((["a", "b"], {"quick": 5, "thorough": 7}[tier]), (["a"], {"quick": 7, "thorough": 9}[tier])):
         for ev in [["push", x, p] for p in PRIOS for x in items] + [["get"], ["pop"], ["front"], ["empty"]]:
             out.append({"kind": "pq", "depth": d - 1, "prefix": [ev], "items": items})
+    # Family C: priorities that differ by little relative to their magnitude (large integers one apart, floats one part
+    # in 2^40 apart, tiny floats) - a comparison with a tolerance would order them wrongly
+    dm = {"quick": 4, "thorough": 6}[tier]
+    for p in PRIOS_CLOSE:
+        out.append({"kind": "pq", "depth": dm - 1, "prefix": [["push", "a", p]], "items": ["a"], "prios": "close"})
     return out
 
 
@@ -323,6 +328,7 @@ def sorted_repr(s):
 
 # ------------------------------------------------------------------------------------------------
 PRIOS = [0.0, 1.0, -1.0, math.inf, -math.inf]
+PRIOS_CLOSE = [10 ** 10, 10 ** 10 + 1, -10 ** 10, -10 ** 10 - 1, 1.0, 1.0 + 2.0 ** -40, 1e-300, 2e-300]
 ITEMS = ["a", "b"]
 
 
@@ -334,7 +340,8 @@ class PQState:
 
 def _run_pq(task, rep: Report):
     from mouette.utils import PriorityQueue
-    events = [("push", x, p) for p in PRIOS for x in task.get("items", ITEMS)] + [("get",), ("pop",), ("front",), ("empty",)]
+    prios = PRIOS_CLOSE if task.get("prios") == "close" else PRIOS
+    events = [("push", x, p) for p in prios for x in task.get("items", ITEMS)] + [("get",), ("pop",), ("front",), ("empty",)]
     icls = "pq"
 
     prefix = [tuple(e) for e in task.get("prefix", [])]
@@ -416,6 +423,8 @@ def _run_pq(task, rep: Report):
             rep.flag("pq:tie")
         if any(math.isinf(p) for p in ps):
             rep.flag("pq:inf")
+        if any(a != b and abs(a - b) <= 1e-9 * max(abs(a), abs(b)) for a in ps for b in ps if not (math.isinf(a) or math.isinf(b))):
+            rep.flag("pq:close_priorities")
 
     res = bfs(make, lambda st: events, apply, key_of, task["depth"], on_state=on_state)
     rep.states += res["states"]
@@ -434,7 +443,7 @@ def run_task(task, rep: Report):
 
 def finish(tier, rep: Report):
     fails = []
-    for f in ("uf:nontrivial-block", "uf:absent-element-added", "uf:forest_depth>=3", "pq:tie", "pq:inf"):
+    for f in ("uf:nontrivial-block", "uf:absent-element-added", "uf:forest_depth>=3", "pq:tie", "pq:inf", "pq:close_priorities"):
         if f not in rep.flags:
             fails.append("coverage flag missing: " + f)
     for kind in ("find", "connected", "get", "empty", "in"):
